@@ -372,6 +372,24 @@ class Executor:
     # ---- derived data for C16 oracles (harness code, independent formula) ----------------
     def _derived(self, fn, op, res):
         d = {}
+        if op.get("eval_fits") and fn.startswith("non_ideal") and fn.endswith("process"):
+            pm = res["model"] if isinstance(res, dict) else res
+            rows = []
+            for fi, f in enumerate(pm.permeance_fits or ()):
+                g = op["eval_fits"]
+                for (x, t) in g:
+                    ind, mag = independent_eval(f, x, t)
+                    rows.append([fi, "scalar", x, t, float(f(x, t)), ind, mag])
+                xs = numpy.array([float(p[0]) for p in g])
+                arr = f(xs, g[0][1])
+                for x, v in zip(xs, list(arr)):
+                    ind, mag = independent_eval(f, float(x), g[0][1])
+                    rows.append([fi, "array-x", float(x), g[0][1], float(v), ind, mag])
+                half = f * 0.5
+                for (x, t) in g[:2]:
+                    _, mag = independent_eval(f, x, t)
+                    rows.append([fi, "scaled", x, t, float(half(x, t)), 0.5 * float(f(x, t)), mag])
+            d["fits_eval"] = rows
         if isinstance(res, PervaporationFunction):
             grid = op.get("grid")
             if grid:
@@ -455,7 +473,18 @@ class Executor:
         if fn == "fit_vle":
             return fit_vle(**a)
         if fn == "fn_call":
-            return [a["function"](x, t) for (x, t) in op["grid_args"]]
+            f = a["function"]
+            if op.get("as_array") == "x":
+                xs = numpy.array([float(g[0]) for g in op["grid_args"]])
+                t0 = op["grid_args"][0][1]
+                vals = f(xs, t0)
+                return {"array": list(vals), "points": [[float(x), t0] for x in xs]}
+            if op.get("as_array") == "t":
+                ts = numpy.array([float(g[1]) for g in op["grid_args"]])
+                x0 = op["grid_args"][0][0]
+                vals = f(x0, ts)
+                return {"array": list(vals), "points": [[x0, float(t)] for t in ts]}
+            return [f(x, t) for (x, t) in op["grid_args"]]
         if fn == "fn_mul":
             f = a["function"]
             g = f * a["constant"]
